@@ -188,9 +188,29 @@ def check_shape(built, shape, timeout):
         if p.outcome == "error":
             return [ob.unknown("executor: %s" % p.info["msg"][:300])]
         if p.outcome == "panic":
-            st, _ = _feasible(p.conds, timeout)
+            st, pmodel = _feasible(p.conds, timeout)
             if st != "unsat":
-                return [ob.unknown("a panic path is reachable in the stubbed model: %s" % p.info["callee"][:80])]
+                # candidate: replay in a child process (a panic aborts it): the solver's signature / hash bytes for this
+                # path under valid keys of the adversarial corpus (the stubbed key decoding accepts any bytes), then the corpus
+                from . import ecdsa_ref as REF
+                from .lhelp import native_crashes, model_inputs
+                rr = rng("c08panic", drv)
+                cands = []
+                if pmodel:
+                    mi = model_inputs(pmodel, built, drv)
+                    cands.append(mi)
+                    for it in range(3):
+                        c_ = REF.adversarial_case(rr, curve, pklen, siglen, hvlen, it)
+                        cands.append({"pk": list(c_["pk"]), "sig": list(mi["sig"]), "hv": list(mi["hv"])})
+                cands += [REF.adversarial_case(rr, curve, pklen, siglen, hvlen, it) for it in range(8)]
+                for inp in cands:
+                    crashed, err = native_crashes(built, drv, {k: list(v) for k, v in inp.items()})
+                    if crashed:
+                        return [ob.fail({"key": "%s.verify_hash.panic" % curve, "inputs": {k: bytes(v).hex() for k, v in inp.items()},
+                                         "panic": p.info, "native_stderr": err[-300:],
+                                         "found_by": "panic path feasible in the stubbed model, reproduced natively on the adversarial corpus"},
+                                        "z3-bv+replay", time.time() - t0, nq)]
+                return [ob.unknown("a panic path is reachable in the stubbed model: %s (not reproduced natively on the corpus)" % p.info["callee"][:80])]
     rets = [p for p in paths if p.outcome == "ret"]
     ins = rets[0].ins
     pk, sig, hv = ins["pk"], ins["sig"], ins["hv"]
